@@ -59,6 +59,7 @@ class Fn:
         self.proof = kw.pop("proof", True)           # False: contract evaluated concretely only (bounded stand-in)
         self.c_ensures = kw.pop("c_ensures", [])     # clauses evaluated only concretely (use spec functions without a logical definition)
         self.c_raises = kw.pop("c_raises", {})
+        self.s_ensures = kw.pop("s_ensures", [])     # clauses checked only symbolically (three-state clauses using after(...))
         self.abstract = kw.pop("abstract", False)    # contract only (callee not verified: listed as assumption)
         self.params = kw.pop("params", None)         # for abstract contracts: parameter names
         if kw:
